@@ -246,8 +246,8 @@ pub fn c02() -> PropDef {
             c.terms = vec![TermClass::ShortCircuit, TermClass::WithIndex];
             c.max_len = 48;
         }),
-        quick: (3000, 1500),
-        thorough: (40000, 10000),
+        quick: (9000, 4500),
+        thorough: (60000, 15000),
         dense: dense_c02,
         check: check_c02,
         adjust: plant,
@@ -259,7 +259,7 @@ pub fn c02() -> PropDef {
                 &[&[1, 0, 2, 1], &[0, 2, 1], &[3, 3, 1, 2]],
             )
         },
-        long: Some(({ let mut c = GenCfg::long_sched(); c.terms = vec![TermClass::ShortCircuit, TermClass::WithIndex]; c }, 300, 3000)),
+        long: Some(({ let mut c = GenCfg::long_sched(); c.terms = vec![TermClass::ShortCircuit, TermClass::WithIndex]; c }, 800, 4000)),
     }
 }
 
@@ -586,8 +586,8 @@ pub fn c10() -> PropDef {
             c.max_len = 64;
             c.threads = ThreadsCfg::MaxN(8);
         }),
-        quick: (600, 1500),
-        thorough: (6000, 12000),
+        quick: (1500, 4500),
+        thorough: (9000, 20000),
         dense: no_dense,
         check: check_c10,
         adjust: adjust_c10_entry,
